@@ -8,209 +8,60 @@ import (
 	"github.com/B1NARY-GR0UP/originium/types"
 )
 
-type vlog struct{}
-
-func (vlog) Debugf(string, ...any) {}
-func (vlog) Infof(string, ...any)  {}
-func (vlog) Warnf(string, ...any)  {}
-func (vlog) Errorf(string, ...any) {}
-func (vlog) Fatalf(string, ...any) {}
-func (vlog) Panicf(f string, a ...any) { panic(fmt.Sprintf(f, a...)) }
-
-type vmodel struct {
-	val  map[string][]byte
-	live map[string]bool
-}
-
-func (mo *vmodel) check(db *DB, tag string, keys []string) {
-	_ = db.View(func(txn *Txn) error {
-		for _, k := range keys {
-			got, ok := txn.Get(k)
-			vf.Assert(tag+".found."+k, ok == mo.live[k])
-			if vf.And(ok, mo.live[k]) {
-				vf.Assert(tag+".value."+k, vf.BytesEq(got, mo.val[k]))
-			}
-		}
-		return nil
-	})
-}
-
-// VH_SpikeDB: whole engine on the file-system model: commits, rotation, flush, reads,
-// close, reopen, reads.
-func VH_SpikeDB() {
-	logger.SetLogger(vlog{})
-	cfg := Config{SkipListMaxLevel: 2, SkipListP: 0.5, MemtableByteThreshold: 60, ImmutableBuffer: 1,
-		DataBlockByteThreshold: 16, L0TargetNum: 1, LevelRatio: 2}
-	dbdir := vf.Dir()
-	db, err := Open(dbdir, cfg)
-	vf.Assert("open", err == nil)
-	keys := []string{"a", "b"}
-	mo := &vmodel{val: map[string][]byte{}, live: map[string]bool{}}
-	n := 4
-	for i := 0; i < n; i++ {
-		k := keys[i%2]
-		v := []byte{vf.Byte(fmt.Sprintf("v%d", i))}
-		del := i == 3
-		err := db.Update(func(txn *Txn) error {
-			if del {
-				return txn.Delete(k)
-			}
-			return txn.Set(k, v)
-		})
-		vf.Assert("commit", err == nil)
-		if del {
-			mo.live[k] = false
-		} else {
-			mo.live[k] = true
-			mo.val[k] = v
-		}
-		mo.check(db, fmt.Sprintf("after%d", i), keys)
-	}
-	vf.Drain()
-	mo.check(db, "drained", keys)
-	db.Close()
-	vf.Cover("closed")
-	db2, err := Open(dbdir, cfg)
-	vf.Assert("reopen", err == nil)
-	mo.check(db2, "reopened", keys)
-	vf.Cover("end")
-}
-
-var spikeCfg = Config{SkipListMaxLevel: 2, SkipListP: 0.5, MemtableByteThreshold: 60, ImmutableBuffer: 1,
-	DataBlockByteThreshold: 16, L0TargetNum: 1, LevelRatio: 2}
-
-const spikeN = 6
-
-// VH_SpikeCrash_P1: deterministic workload; txn i sets key[i%2] = [i+1].
-func VH_SpikeCrash_P1() {
-	logger.SetLogger(vlog{})
-	db, err := Open(vf.Dir(), spikeCfg)
-	vf.Assert("open", err == nil)
-	keys := []string{"a", "b"}
-	for i := 0; i < spikeN; i++ {
-		vf.Record("inflight", i)
-		err := db.Update(func(txn *Txn) error { return txn.Set(keys[i%2], []byte{byte(i + 1)}) })
-		vf.Assert("commit", err == nil)
-		vf.Record("acked", i)
-	}
-	vf.Drain()
-	db.Close()
-	vf.Record("closed", 1)
-	vf.Cover("p1.end")
-}
-
-// VH_SpikeCrash_P2: recovery in a fresh process; acknowledged commits must be visible.
-func VH_SpikeCrash_P2() {
-	logger.SetLogger(vlog{})
-	db, err := Open(vf.Dir(), spikeCfg)
-	vf.Assert("reopen", err == nil)
-	acked, inflight := vf.Recorded("acked"), vf.Recorded("inflight")
-	keys := []string{"a", "b"}
-	_ = db.View(func(txn *Txn) error {
-		for ki, k := range keys {
-			// latest acknowledged and (possibly) in-flight writer of this key
-			want, alt := -1, -1
-			for i := 0; i <= acked; i++ {
-				if i%2 == ki {
-					want = i
-				}
-			}
-			if inflight > acked && inflight%2 == ki {
-				alt = inflight
-			}
-			got, ok := txn.Get(k)
-			okWant := (want < 0 && !ok) || (want >= 0 && ok && len(got) == 1 && int(got[0]) == want+1)
-			okAlt := alt >= 0 && ok && len(got) == 1 && int(got[0]) == alt+1
-			vf.Assert(fmt.Sprintf("recovered.%s", k), okWant || okAlt)
-		}
-		return nil
-	})
-	vf.Cover("p2.end")
-}
-
-// VH_SpikeRace: a writer goroutine rotates the memtable while the harness goroutine reads.
-func VH_SpikeRace() {
-	logger.SetLogger(vlog{})
-	db, err := Open(vf.Dir(), spikeCfg)
-	vf.Assert("open", err == nil)
-	done := make(chan struct{})
-	keys := []string{"a", "b"}
-	go func() {
-		for i := 0; i < 3; i++ {
-			_ = db.Update(func(txn *Txn) error { return txn.Set(keys[i%2], []byte{byte(i + 1)}) })
-		}
-		close(done)
-	}()
-	_ = db.View(func(txn *Txn) error {
-		txn.Get("a")
-		txn.Get("b")
-		return nil
-	})
-	<-done
-	vf.Drain()
-	db.Close()
-	vf.Cover("end")
-}
-
-func vkey2(k, ts byte) string { return string([]byte{k}) + "@" + string([]byte{'0' + ts}) }
-
-func vbefore(k1, t1, k2, t2 byte) bool { return vf.Or(k1 < k2, vf.And(k1 == k2, t1 > t2)) }
-
-// VH_C10: T tables of E symbolic sorted entries through the real flushToL0, then the
-// real searchLowerBound for a symbolic (key, ts); spec = newest version <= ts over all tables.
+// VH_C10: T tables of E symbolic sorted entries go through the real flushToL0 (table.Build,
+// encoders, file system), then the real searchLowerBound answers a symbolic (key, ts) query;
+// the reference is the newest version <= ts over all tables, computed on components.
+// Params: T, E (tables x entries), KL2 (number of leading entries with a 2-byte user key),
+// QKL (query user-key length), MAXTS (timestamps 0..MAXTS), RECOVER (1: query handles
+// rebuilt from the files by recover()).
 func VH_C10() {
 	logger.SetLogger(vlog{})
-	T := vf.Choose("T", 2, 2)
-	E := vf.Choose("E", 2, 2)
-	lm := &levelManager{dir: vf.Dir(), l0TargetNum: 4, ratio: 10, dataBlockSize: vf.Int("blk", 0, 64), logger: vlog{}}
-	type ent struct{ k, ts, v byte; tomb bool }
-	var all []ent
+	T, E := vf.Param("T", 2), vf.Param("E", 2)
+	kl2, qkl, maxTs := vf.Param("KL2", 0), vf.Param("QKL", 1), byte(vf.Param("MAXTS", 9))
+	dir := vf.Dir()
+	lm := &levelManager{dir: dir, l0TargetNum: 4, ratio: 10, dataBlockSize: vf.Int("blk", 0, 64), logger: vlog{}}
+	var all []vent
+	n := 0
 	for t := 0; t < T; t++ {
-		var es []ent
+		var es []vent
 		var kvs []types.Entry
 		for i := 0; i < E; i++ {
-			e := ent{vf.Byte(fmt.Sprintf("k%d_%d", t, i)), vf.Byte(fmt.Sprintf("t%d_%d", t, i)), vf.Byte(fmt.Sprintf("v%d_%d", t, i)), vf.Bool(fmt.Sprintf("d%d_%d", t, i))}
-			vf.Assume(e.ts <= 9)
-			vf.Assume(e.k != '@')
-			if i > 0 {
-				vf.Assume(vbefore(es[i-1].k, es[i-1].ts, e.k, e.ts))
+			kl := 1
+			if n < kl2 {
+				kl = 2
 			}
-			for _, o := range all { // versions are unique per key across tables
-				vf.Assume(vf.Not(vf.And(o.k == e.k, o.ts == e.ts)))
+			n++
+			e := vsymEnt(fmt.Sprintf("e%d_%d", t, i), kl, maxTs)
+			if i > 0 {
+				vf.Assume(vbefore(es[i-1], e)) // what memtable.all() delivers: sorted, distinct
+			}
+			for _, o := range all { // a (key, version) pair is written once
+				vf.Assume(vf.Not(vf.And(vsameUser(o, e), o.ts == e.ts)))
 			}
 			es = append(es, e)
-			kvs = append(kvs, types.Entry{Key: vkey2(e.k, e.ts), Value: []byte{e.v}, Tombstone: e.tomb, Version: int64(e.ts)})
+			kvs = append(kvs, e.entry())
 		}
 		all = append(all, es...)
 		err := lm.flushToL0(kvs)
 		vf.Assert("flush", err == nil)
 	}
-	qk, qt := vf.Byte("qk"), vf.Byte("qt")
-	vf.Assume(qt <= 9)
-	vf.Assume(qk != '@')
-	q := vkey2(qk, qt)
-	got, ok := lm.searchLowerBound(q)
-	found := vf.And(ok, ok) // placeholder to keep ok symbolic-friendly
-	same := false
-	if ok {
-		same = types.IsSameKey(q, got.Key)
+	q := vent{k0: vf.Byte("q.k0"), kl: qkl, ts: vf.Byte("q.ts")}
+	if qkl == 2 {
+		q.k1 = vf.Byte("q.k1")
 	}
-	found = vf.And(ok, same)
+	vf.Assume(q.ts <= maxTs)
+	s := vlookupSpec(all, q)
 
-	// spec on components
-	specFound := false
-	var specTs, specV byte
-	var specTomb bool
-	for _, e := range all {
-		if vf.And(vf.And(e.k == qk, e.ts <= qt), vf.Or(vf.Not(specFound), e.ts > specTs)) {
-			specFound, specTs, specV, specTomb = true, e.ts, e.v, e.tomb
-		}
+	got, ok := lm.searchLowerBound(q.key())
+	vcheckLookup("C10", ok, got, q, s)
+
+	if vf.Param("RECOVER", 0) == 1 {
+		lm2 := &levelManager{dir: dir, l0TargetNum: 4, ratio: 10, dataBlockSize: 16, logger: vlog{}}
+		mv := lm2.recover()
+		vf.ObsInt("C10.recover.maxversion", int(mv))
+		got2, ok2 := lm2.searchLowerBound(q.key())
+		vcheckLookup("C10.recovered", ok2, got2, q, s)
+		vf.Cover("C10.recovered")
 	}
-	vf.Assert("found-iff", found == specFound)
-	if vf.And(found, specFound) {
-		vf.Assert("version", got.Version == int64(specTs))
-		vf.Assert("value", got.Value[0] == specV)
-		vf.Assert("tomb", got.Tombstone == specTomb)
-	}
-	vf.Cover("end")
+	vf.Cover("C10.end")
 }
